@@ -248,9 +248,7 @@ theorem entryAllowed_some (e : OriginEntry) (al : Allowed) :
         · rintro ⟨a, b⟩; exact ⟨a.symm, b.symm⟩
         · rintro ⟨a, b⟩; exact ⟨a.symm, b.symm⟩
       · simp [h1, h2]
-    · simp [h1]; constructor
-      · rintro ⟨a, b⟩; exact ⟨a.symm, b.symm⟩
-      · rintro ⟨a, b⟩; exact ⟨a.symm, b.symm⟩
+    · simp [h1]; intro _; exact eq_comm
 
 /-- the model's `allowedOrigins` lists exactly the spec's allowed origins -/
 theorem mem_allowedOrigins_iff (cfg : AdminCfg) (a : Addr) (al : Allowed) :
@@ -276,17 +274,16 @@ theorem mem_allowedOrigins_iff (cfg : AdminCfg) (a : Addr) (al : Allowed) :
         by_cases hl : a.isLoopback = true
         · simp [hl, joinHostPort_localhost, joinHostPort_v6, joinHostPort_v4]
           constructor
-          · rintro (h | h | h)
-            · exact ⟨by simpa using congrArg Allowed.scheme h, Or.inl (by simpa using congrArg Allowed.host h)⟩
-            · exact ⟨by simpa using congrArg Allowed.scheme h, Or.inr (Or.inl (by simpa using congrArg Allowed.host h))⟩
-            · exact ⟨by simpa using congrArg Allowed.scheme h, Or.inr (Or.inr (by simpa using congrArg Allowed.host h))⟩
-          · rintro ⟨hs, h | h | h⟩ <;> subst hs <;> subst h <;> simp
+          · rintro (⟨hs, h⟩ | ⟨hs, h⟩ | ⟨hs, h⟩)
+            · exact ⟨hs, Or.inl h⟩
+            · exact ⟨hs, Or.inr (Or.inl h)⟩
+            · exact ⟨hs, Or.inr (Or.inr h)⟩
+          · rintro ⟨hs, h | h | h⟩
+            · exact Or.inl ⟨hs, h⟩
+            · exact Or.inr (Or.inl ⟨hs, h⟩)
+            · exact Or.inr (Or.inr ⟨hs, h⟩)
         · have hl' : a.isLoopback = false := by simpa using hl
           simp [hl', Addr.joinHostPort, hu', hf']
-          constructor
-          · intro h
-            exact ⟨by simpa using congrArg Allowed.scheme h, by simpa using congrArg Allowed.host h⟩
-          · rintro ⟨hs, h⟩; subst hs; subst h; rfl
 
 -- ---------------------------------------------------------------- enforceAccessControls
 
@@ -341,8 +338,10 @@ theorem accessScan_none (m path : Bytes) (k : Nat) :
   | cons a as ih =>
     unfold accessScan
     by_cases hk : a.keys.contains k = true
-    · simp [hk]; exact by simpa using hk
-    · simp [hk, ih]; intro _; exact by simpa using hk
+    · have hk' : k ∈ a.keys := by simpa using hk
+      simp [hk']
+    · have hk' : k ∉ a.keys := by simpa using hk
+      simp [hk', ih]
 
 theorem certScan_some (acl : List Access) (m path : Bytes) :
     ∀ certs res, certScan acl m path certs = some res →
@@ -373,7 +372,7 @@ theorem certScan_none (acl : List Access) (m path : Bytes) :
       simp
       obtain ⟨a, ha, hk, _⟩ := accessScan_some m path k acl _ hs
       intro hall
-      exact absurd hk (hall.1 a ha)
+      exact absurd hk (hall a ha)
     | none =>
       simp [ih]
       intro _
